@@ -155,12 +155,15 @@ type uiNull struct{}
 func (uiNull) SetPrompt(string) {}
 func (uiNull) Print(string)     {}
 
-func runOne(src string, code *py.Code) (trace []string, exc string) {
+func runOne(idx int, src string, code *py.Code) (trace []string, exc string) {
 	s, err := pyhost.NewSession([]string{libDir()})
 	if err != nil {
 		return nil, "SETUP"
 	}
 	defer s.Close()
+	if err := isolation.InitConf(s.Ctx, idx); err != nil {
+		return nil, "SETUP"
+	}
 	defer func() {
 		if r := recover(); r != nil {
 			exc = "PANIC: " + fmt.Sprint(r)
@@ -256,12 +259,12 @@ func (e Engine) Exec(sci interface{}, opt harness.ExecOpts) *harness.Outcome {
 			wg.Add(1)
 			go func() {
 				defer wg.Done()
-				par[i].t, par[i].e = runOne(srcs[i], shared)
+				par[i].t, par[i].e = runOne(i, srcs[i], shared)
 			}()
 		}
 		wg.Wait()
 		for i := range srcs {
-			solo[i].t, solo[i].e = runOne(srcs[i], sharedSolo)
+			solo[i].t, solo[i].e = runOne(i, srcs[i], sharedSolo)
 		}
 		for i := range srcs {
 			if d := pyhost.DiffTrace(par[i].t, solo[i].t); d != "" || par[i].e != solo[i].e {
